@@ -545,8 +545,8 @@ def _norm_compression_tifffile(
         compression = kw.pop("compress", "ADOBE_DEFLATE")
         assert isinstance(compression, str)
 
-    if compressionargs is None:
-        compressionargs = {}
+    # never modify the caller's dict: it may be reused for another file
+    compressionargs = {} if compressionargs is None else dict(compressionargs)
 
     remap = {k.upper(): k for k in kw}
 
